@@ -401,7 +401,7 @@ func runC18(r *core.Run) {
 				readerStopFrom(c.Format, mk), false, errLastFormat(c.Format))
 		})
 
-	core.Clause(r, "error-classes-then-records", core.Opts{Rule: "for BED, FASTQ and Newick: every malformed-line class of the format (one malformed field/line from a menu) placed between well-formed records: the error item must be the last item, and every stop position behaves; for SAM (where iteration continues) every stop position behaves; non-trivial = at least 2 items"},
+	core.Clause(r, "error-classes-then-records", core.Opts{Rule: "for BED, FASTQ and Newick: every malformed-line class of the format (one malformed field/line from a menu; for BED and Newick also every numeric field holding each of the number texts of C11: out of range, Inf/NaN spellings, hexadecimal, malformed) placed between well-formed records: the error item must be the last item, and every stop position behaves; for SAM (where iteration continues) every stop position behaves; non-trivial = at least 2 items"},
 		func(emit func(c18Input) bool) {
 			bedBad := []string{"a\t0", "a\tx\t1", "a\t0\tx", "a\t0\t1\tn\tx", "a\t0\t1\tn\t0\t?", "a\t0\t1\tn\t0\t+\tx", "a\t0\t1\tn\t0\t+\t0\tx", "a\t0\t1\tn\t0\t+\t0\t0\t1,2", "a\t0\t1\tn\t0\t+\t0\t0\t256,0,0",
 				"a\t0\t1\tn\t0\t+\t0\t0\t0,0,0\tx", "a\t0\t1\tn\t0\t+\t0\t0\t0,0,0\t2\t1\t1,2", "a\t0\t1\tn\t0\t+\t0\t0\t0,0,0\t1\t1,2\t1", "a\t0\t1\tn\t0\t+\t0\t0\t0,0,0\t1\tx\t1", "a\t0\t1\tn\t0\t+\t0\t0\t0,0,0\t1\t1\tx",
@@ -417,6 +417,22 @@ func runC18(r *core.Run) {
 			}
 			for _, bad := range []string{"(a;", "a b;", "(a,b));", "a:x;", "(a:1:2);", ",;", "'a'b;", "a'b;", "(:;"} {
 				emit(c18Input{Format: "newick", Input: core.S("(x,y);" + bad + "(z);(w);")})
+			}
+			// every text in the place of a number: whichever of them the reader refuses (out of range, Inf
+			// where only finite values are wanted, malformed) is an error item like any other
+			for _, t := range numberTexts() {
+				for _, tp := range []string{"a:%s;", "(a:%s,b)c;", "(a,b)c:%s;"} {
+					emit(c18Input{Format: "newick", Input: core.S("(x,y);" + strings.ReplaceAll(tp, "%s", t) + "(z);(w);")})
+				}
+				for _, col := range []int{1, 2, 4, 6, 7, 9, 10, 11} {
+					f := strings.Split("a\t0\t1\tn\t0\t+\t0\t0\t0,0,0\t1\t1\t0", "\t")
+					good := strings.Join(f, "\t")
+					f[col] = t
+					if col == 8 {
+						f[col] = t + ",0,0"
+					}
+					emit(c18Input{Format: "bed", Input: core.S(good + "\n" + strings.Join(f, "\t") + "\n" + good + "\n" + good + "\n")})
+				}
 			}
 			for _, bad := range []string{"q\t1", "q\tx\tr\t1\t9\t1M\t*\t0\t0\tA\tI", "q\t0\tr\t1\t9\t1M\t*\t0\t0\tA\tI\tXX", "q\t0\tr\t1\t9\t1M\t*\t0\t0\tA\tI\tXX:i:x"} {
 				for _, f := range []string{"sam", "samh"} {
